@@ -491,4 +491,27 @@ def record_codecs(*specs):
     return "\n".join(out) + "\n"
 
 
-GENERATORS = {"auth_methods": auth_methods, "config_statics": config_statics, "record_codecs": record_codecs}
+
+def request_limits():
+    """C15: the default request-size limit of the server must admit the hex form of a payload of CALLDATA_LIMIT bytes
+    (2 characters per byte + `0x`) inside a JSON-RPC envelope; otherwise the hex field refuses bytes the base64 field accepts.
+    The lazy_static literal is carried over as written (Verus evaluates the constant expression)."""
+    cfg = open(os.path.join(REPO, "src/global/config.rs")).read()
+    m = re.search(r"static ref MAX_REQUEST_SIZE_DEFAULT: u32 = ([^;]+);", cfg)
+    if not m:
+        raise GenError("lazy_static MAX_REQUEST_SIZE_DEFAULT not found")
+    expr = m.group(1).strip()
+    if not re.fullmatch(r"[0-9A-Za-z_ *+()\-]+", expr):
+        raise GenError("MAX_REQUEST_SIZE_DEFAULT has an initialiser this reader does not understand: %r" % expr)
+    out = ["// ---- generated from the lazy_static! block of src/global/config.rs on this run (rule N6) ----",
+           "pub const MAX_REQUEST_SIZE_DEFAULT: u32 = %s;" % expr,
+           "// envelope allowance: method name, the other parameters of brc20_deploy / brc20_call / brc20_transact (pkscript, hashes,",
+           "// inscription id, numbers) and JSON punctuation - a few hundred bytes in practice; 4096 is the margin demanded here",
+           "pub const ENVELOPE_ALLOWANCE: u32 = 4096;",
+           "proof fn prop_default_request_size_admits_limit_payload()",
+           "    ensures MAX_REQUEST_SIZE_DEFAULT as int >= 2 * (CALLDATA_LIMIT as int) + 2 + ENVELOPE_ALLOWANCE as int,",
+           "{",
+           "}"]
+    return "\n".join(out) + "\n"
+
+GENERATORS = {"auth_methods": auth_methods, "config_statics": config_statics, "record_codecs": record_codecs, "request_limits": request_limits}
